@@ -343,6 +343,67 @@ pub fn run(ctx: &Ctx) -> (Spec, Report) {
             }
         }
     }
+    // an annotated item that cannot be generated, in one file of a crate whose other files are fine, through the real
+    // binary under every delivery order of the three files: the run fails, or the item is defined - it is never left out
+    {
+        let scratch = ctx.scratch("bad-among-good");
+        let cli = ctx.cli.clone();
+        let bad_items: [(&str, &str); 3] = [
+            ("tuple-struct", "#[typeshare]\npub struct Qpairbad(pub u32, pub String);\n"),
+            ("union", "#[typeshare]\npub union Qpairbad { a: u8, b: u16 }\n"),
+            ("unsupported-field-type", "#[typeshare]\npub struct Qpairbad { pub big: u64 }\n"),
+        ];
+        let perms = ["0,1,2", "0,2,1", "1,0,2", "1,2,0", "2,0,1", "2,1,0"];
+        let mut cases = vec![];
+        for (bi, _) in bad_items.iter().enumerate() {
+            for lang in ALL_LANGS {
+                for multi in [false, true] {
+                    if multi && matches!(lang, LangId::Scala | LangId::Go) {
+                        continue;
+                    }
+                    for perm in perms {
+                        cases.push((bi, lang, multi, perm));
+                    }
+                }
+            }
+        }
+        let cases_ref = &cases;
+        let r = crate::report::par_shards(ctx.threads, cases.len(), |i| {
+            let (bi, lang, multi, perm) = cases_ref[i];
+            let (what, bad) = bad_items[bi];
+            let mut rep = Report::new();
+            let root = scratch.join(format!("b{i}"));
+            crate::sut::write_tree(
+                &root,
+                &[
+                    SrcFile { path: "src_root/my_crate/src/a_good.rs".into(), source: "#[typeshare]\npub struct Qgoodfirst { pub a: u8 }\n".into() },
+                    SrcFile { path: "src_root/my_crate/src/m_bad.rs".into(), source: format!("{bad}#[typeshare]\npub struct Qgoodbeside {{ pub b: u8 }}\n") },
+                    SrcFile { path: "src_root/my_crate/src/z_good.rs".into(), source: "#[typeshare]\npub enum Qgoodlast { A, B }\n".into() },
+                ],
+            );
+            let cfg = LangCfg::basic(lang);
+            let out = if multi { root.join("out") } else { root.join(format!("out.{}", lang.ext())) };
+            let args = crate::sut::cli_args(lang, &cfg, multi, &out, &["src_root"]);
+            let o = crate::sut::run_bin(crate::sut::BinRun { cli: &cli, args: args.clone(), env: vec![("TYPESHARE_VERIF_ORDER".into(), format!("perm:{perm}"))], cwd: &root, strace: None, wall_limit: std::time::Duration::from_secs(30) });
+            rep.eval(1);
+            rep.count("cli_runs", 1);
+            rep.cell(format!("bad-among-good|{what}|{}|multi={multi}|{}", lang.name(), if o.ok() { "exit0" } else { "failed" }));
+            if o.ok() {
+                let text: String = if multi { crate::sut::read_dir_files(&out).values().map(|b| String::from_utf8_lossy(b).to_lowercase()).collect::<Vec<_>>().join("\n") } else { std::fs::read_to_string(&out).unwrap_or_default().to_lowercase() };
+                if !text.contains("qpairbad") {
+                    rep.violate(
+                        format!("C03|cli|annotated-item-silently-omitted|{what}"),
+                        format!("{} ({}): the run succeeds but `Qpairbad` ({what}) is in no output; files delivered in order {perm}", lang.name(), if multi { "folder" } else { "single file" }),
+                        json!({"language": lang.name(), "multi_file": multi, "args": args, "delivery_order": perm, "stderr": o.stderr.chars().take(600).collect::<String>(), "output": text.chars().take(1500).collect::<String>()}),
+                    );
+                }
+            }
+            let _ = std::fs::remove_dir_all(&root);
+            rep
+        });
+        rep.merge(r);
+        let _ = std::fs::remove_dir_all(&scratch);
+    }
     // the same file reached twice from the command line (a directory named twice, a directory and one of its
     // sub-directories): still one foreign type per annotated item
     {
@@ -399,7 +460,7 @@ pub fn run(ctx: &Ctx) -> (Spec, Report) {
     }
     let spec = Spec {
         level: "exploration",
-        rule: format!("{n} generated files (Scala and Kotlin under dotted / single-segment / two-segment / absent packages) mixing annotated and un-annotated items at module depth 0-4 and inside function bodies / anonymous const blocks, a quarter of them with two structs of one Rust identifier in two modules (different serde names), #[typeshare] / #[typeshare::typeshare] / with arguments, serde(skip) / typeshare(skip) on random subsets of fields, variants and struct-variant fields, any attribute order, five source layouts (rustfmt-like, attribute behind another attribute or a block comment on the same line, all attributes and the item on one line, CRLF + tabs), x up to 6 languages; definitions and members are attributed to source elements by unique stems and compared with the generator's item list (count, kind, order); decoy and skipped stems are searched over the whole output; plus the real binary with the input named twice (same directory twice, a directory and one of its sub-directories, in both orders): byte-identical to naming it once; plus 'cannot be generated' cells (const / union / DateTime per backend): error or definition, never success without definition; distinct = (language, item kind, module depth, annotation spelling) and (language, struct-variant, has-skipped)"),
+        rule: format!("{n} generated files (Scala and Kotlin under dotted / single-segment / two-segment / absent packages) mixing annotated and un-annotated items at module depth 0-4 and inside function bodies / anonymous const blocks, a quarter of them with two structs of one Rust identifier in two modules (different serde names), #[typeshare] / #[typeshare::typeshare] / with arguments, serde(skip) / typeshare(skip) on random subsets of fields, variants and struct-variant fields, any attribute order, five source layouts (rustfmt-like, attribute behind another attribute or a block comment on the same line, all attributes and the item on one line, CRLF + tabs), x up to 6 languages; definitions and members are attributed to source elements by unique stems and compared with the generator's item list (count, kind, order); decoy and skipped stems are searched over the whole output; plus the real binary with the input named twice (same directory twice, a directory and one of its sub-directories, in both orders): byte-identical to naming it once; plus 'cannot be generated' cells (const / union / DateTime per backend; through the binary a tuple struct / union / u64 field in one of three files of a crate, all six delivery orders, single file and folder): error or definition, never success without definition; distinct = (language, item kind, module depth, annotation spelling) and (language, struct-variant, has-skipped)"),
         assumptions: vec!["stems (q + 5 letters, no other 'q' in generated words) identify source elements after case conversion".into()],
         exhaustive: None,
     };
